@@ -62,6 +62,16 @@ impl RawInstr {
     };
 }
 
+/// Convert a value to the integer type of the on-disk field that stores it, or report that it does not fit.
+///
+/// (a plain `as` cast would silently write a different value)
+pub fn fit_instr_field<T: TryFrom<i64>>(emitter: &dyn Emitter, field: &str, value: impl Into<i64>) -> Result<T, crate::error::ErrorReported> {
+    let value = value.into();
+    T::try_from(value).map_err(|_| emitter.as_sized().emit(error!(
+        "instruction {field} {value} does not fit in the {}-bit field used by this format", 8 * std::mem::size_of::<T>(),
+    )))
+}
+
 #[derive(Debug, Clone, PartialEq, Default)]
 pub struct RawScript {
     pub instrs: Vec<RawInstr>,
